@@ -421,6 +421,7 @@ pub fn batch_decode(b: Bytes) -> Option<Vec<Vec<u8>>> {
 fn case_bdec(out: &mut Out, b: Vec<u8>, tag: &str) {
     out.stat(&format!("bdec_{tag}"));
     let line = format!("bdec {}", hx(&b));
+    if crate::childrun::hangs() >= crate::childrun::MAX_HANGS { out.case(&line, "NOT-RUN-AFTER-HANGS", Ok(())); return; }
     let res = crate::childrun::guarded("bdec", &b);
     let (imp, mon) = match res {
         crate::childrun::Outcome::Value(v) => (v, Ok(())),
